@@ -40,4 +40,14 @@ def main():
 
 
 if __name__ == '__main__':
-    sys.exit(main())
+    try:
+        rc = main()
+    except SystemExit:
+        raise
+    except BaseException:       # the machinery failed: never exit 1 for that
+        import traceback
+        traceback.print_exc()
+        print('MACHINERY-ERROR: uncaught exception in the check itself',
+              flush=True)
+        rc = 2
+    sys.exit(rc)
